@@ -17,5 +17,5 @@ func TestC22(t *testing.T) {
 	d := newFanoutDriver(t)
 	defer d.close()
 	outcomes := []string{"ok", "conflict", "unavailable", "other"}
-	vt.Run(t, fanoutGen(t, outcomes, 7, vt.Pick(150, 2500), vt.Pick(3, 6), true), nil, d.runFanoutCase)
+	vt.Run(t, fanoutGen(t, outcomes, 7, vt.Pick(150, 1500), vt.Pick(3, 6), true), nil, d.runFanoutCase)
 }
